@@ -87,7 +87,7 @@ def replay(spec):
                     sp = GeneralVolumeSplitter()
                     o = {}
                     for n, m in zip(names, modes):
-                        if m != "binomial":
+                        if m != "binomial" or spec.get("vmode") == "explicit":
                             o.setdefault(m, []).append(n)
                     sp.py_set_partitioning(o, M)
                     sp.py_set_partition_noise(float(v.get("noise", 0.2)))
